@@ -6,6 +6,7 @@ import (
 
 	_ "verif/harness/checks/balance"
 	_ "verif/harness/checks/container"
+	_ "verif/harness/checks/deployc"
 	_ "verif/harness/checks/gov"
 	_ "verif/harness/checks/netmap"
 	_ "verif/harness/checks/nns"
